@@ -219,6 +219,19 @@ static ssize_t chunked_read(void *c, char *buf, size_t size)
   return (ssize_t)n;
 }
 
+/* ---- C1011: descriptor count and LeakSanitizer hook ---- */
+#include <dirent.h>
+extern int __lsan_do_recoverable_leak_check(void) __attribute__((weak));
+static int fd_mark = 0;
+static int count_fds(void)
+{
+  DIR *d = opendir("/proc/self/fd"); struct dirent *e; int n = 0;
+  if (!d) return -1;
+  while ((e = readdir(d)) != NULL) if (e->d_name[0] != '.') n++;
+  closedir(d);
+  return n;
+}
+
 static void do_read(int r)
 {
   printf("%d [%s]", r, logstr());
@@ -435,6 +448,23 @@ int main(int argc, char **argv)
       lk_count = 0; lk_fail = NULL; lookup_all(config_root_setting(&cfg));
       if (lk_fail) { printf("lookup_all FAIL "); puthex(lk_fail); } else printf("lookup_all ok");
     }
+    /* BEGIN C1011: resource observations (C10/C11) */
+    else if (OP("fdmark", 1)) { fd_mark = count_fds(); printf("ok"); }
+    else if (OP("fdcount", 1)) { printf("%d", count_fds() - fd_mark); }
+    else if (OP("leakcheck", 1)) { printf("%d", __lsan_do_recoverable_leak_check ? (__lsan_do_recoverable_leak_check() ? 1 : 0) : 0); }
+    else if (OP("read_stream_keep", 2)) {
+      /* config_read on the caller's stream; afterwards the caller's FILE* must still be open and usable */
+      size_t len; char *s = unhex(w[1], &len); FILE *f = fmemopen(len ? s : (char *)"", len ? len : 1, "r");
+      int r, ok;
+      if (!len) { fclose(f); f = fopen("/dev/null", "r"); }
+      r = config_read(&cfg, f);
+      ok = (ftell(f) >= 0);
+      (void)fgetc(f);
+      ok = ok && !ferror(f) && fileno(f) >= -1;
+      ok = (fclose(f) == 0) && ok;
+      do_read(r); printf(" %s", ok ? "stream-ok" : "stream-bad"); free(s);
+    }
+    /* END C1011 */
     else printf("bad-op");
     printf("\n");
     fflush(stdout);
